@@ -5,7 +5,7 @@
                 1 = model and implementation differ, property still holds on the observation
                 2 = they differ and the property fails on the implementation's observation
                 3 = they agree and the property fails (model mirrors a defect) *)
-From Verif Require Export C03.Model.
+From Verif Require Export C03.Model C03.Level.
 From Verif Require Import C03.Spec.
 Open Scope N_scope.
 
@@ -23,7 +23,9 @@ Inductive case :=
    (0 nil, 1 ErrPartialWrite, 2 write failed, 3 ErrTimeout, other = anything else incl.
    panic), the error named by "write failed: ...", per-owner observation *)
 | CWrite (l : level) (self : N) (ooo : bool) (nf : lnf) (owners : list owner) (order : list N)
-         (cls : N) (e : option err) (oo : list oobs).
+         (cls : N) (e : option err) (oo : list oobs)
+(* models.ParseConsistencyLevel on a `consistency` parameter value: accepted?, the numeric level *)
+| CLevel (param : list N) (ok : bool) (num : N).
 
 Definition impl_result (cls : N) (e : option err) : option result :=
   match cls with
@@ -71,4 +73,14 @@ Definition check_case (c : case) : N :=
           code (valid && result_eqb (ob_result m) r && list_eqb oobs_eqb (ob_owners m) oo)
                (valid && spec_ok cfg owners order ob)
       end
+  | CLevel param ok num =>
+      let agree := match parse_level param with
+                   | Some l => ok && (num =? level_num l)
+                   | None => negb ok
+                   end in
+      (* the property's side: a parameter is accepted exactly when it spells one of the four
+         names (any letter case), and then means that level *)
+      let named := existsb (fun l => bytes_eqb (lower param) (level_name l) && (num =? level_num l)) [LAny; LOne; LQuorum; LAll] in
+      code agree (if ok then is_ascii param && named
+                  else negb (is_ascii param && existsb (fun l => bytes_eqb (lower param) (level_name l)) [LAny; LOne; LQuorum; LAll]))
   end.
